@@ -118,26 +118,36 @@ def patByte (tag i : Nat) : UInt8 := UInt8.ofNat ((tag * 131 + i + i / 251) % 25
 
 def pat (tag len : Nat) : Bytes := (List.range len).map (patByte tag)
 
+/-- Body of the JSON entry points (`call_json`, `notify_json`, …) of the family: a JSON string of `len`
+bytes in all (quotes included). -/
+def jpat (tag len : Nat) : Bytes :=
+  (List.range len).map fun i =>
+    if i = 0 ∨ i + 1 = len then (34 : UInt8) else UInt8.ofNat (97 + (tag + i) % 26)
+
 /-- A frame of the correspondence family, described instead of materialised: what `MessageBuilder`
-is given (id, notify flag, query; query format 1, body format 0, ec 0) plus the tag and length of the
-pattern body.  Its length needs no bytes; its bytes are produced on demand. -/
+is given (id, notify flag, query, body format; query format 1, ec 0) plus the kind, tag and length of
+the pattern body.  Its length needs no bytes; its bytes are produced on demand. -/
 structure LFrame where
   id : Nat
   notify : Bool
   query : Bytes
+  bfmt : Nat
+  json : Bool
   tag : Nat
   blen : Nat
+
+def LFrame.body (f : LFrame) : Bytes := if f.json then jpat f.tag f.blen else pat f.tag f.blen
 
 def LFrame.len (f : LFrame) : Nat := 48 + f.query.length + f.blen
 
 def LFrame.header (f : LFrame) : Header :=
-  ((Builder.mk f.id f.notify 0 1 0 f.query []).build.header).patchLengths f.query.length f.blen
+  ((Builder.mk f.id f.notify 0 1 f.bfmt f.query []).build.header).patchLengths f.query.length f.blen
 
-def LFrame.bytes (f : LFrame) : Bytes := f.header.encode ++ f.query ++ pat f.tag f.blen
+def LFrame.bytes (f : LFrame) : Bytes := f.header.encode ++ f.query ++ f.body
 
 /-- The message `MessageBuilder::build` produces for this description. -/
 def LFrame.message (f : LFrame) : Message :=
-  (Builder.mk f.id f.notify 0 1 0 f.query (pat f.tag f.blen)).build
+  (Builder.mk f.id f.notify 0 1 f.bfmt f.query f.body).build
 
 /-! ### changing the representation of frames (used to relate the driver's run to the theorems') -/
 
